@@ -39,6 +39,9 @@
   rank of a host = its index in the final list              `rank_is_index` (the list OBJECT `cliWordsL`; C01 `iter_all`
                                                               imported), `contacted_with_rank` (C09 `rank_is_position`
                                                               and C03's fan-out imported)
+  whatever was parsed before (stale errno = ERANGE after    `name_parse_order_independent` (hostname_create with errno as
+    a 20+ digit tail; names in any order in the list)         explicit state = the pure parse the model executes, for every
+                                                              list and every incoming errno), `long_tail_is_plain_host`
   the driver executes the definitions of the theorems       `fast_path_is_model`, `fast_path_is_cliFinal` (the linear
                                                               path Opt/ExcludeFast.lean = `cliFinalW`, every input)
   Witnesses (`decide`): D1, F02-2BR end to end through `cliFinal`; instances derived THROUGH the theorems:
@@ -61,6 +64,7 @@ import PdshVerif.Opt.ExcludeBridge
 import PdshVerif.Opt.ExcludeSyntax
 import PdshVerif.Opt.ExcludeFast
 import PdshVerif.Opt.ExcludeRank
+import PdshVerif.Opt.ExcludeLongTail
 import PdshVerif.Props.C01
 import PdshVerif.Props.C09
 import PdshVerif.Props.C10
@@ -615,5 +619,32 @@ example : targetDomain Cfg.repaired .whole PdshVerif.Props.C10.siteFS [] PdshVer
   constructor <;> decide
 
 end EndToEnd
+
+/-! ### names whose digit tail overflows `strtoul` (errno left at ERANGE) -/
+section LongTail
+open PdshVerif.Opt.LongTail
+
+/-- `hostname_create` run on the names of an exclusion list one after the other in ONE process, `errno` threaded
+    through as the C library keeps it (set by an overflowing `strtoul`, never cleared): every name gets the
+    components the pure `hostnameCreate` of the model gives it — whatever stands before it, whatever `errno` was -/
+theorem name_parse_order_independent (errno : Bool) (before after : List Str) (s : Str) :
+    parseAllE errno (before ++ s :: after) = (before ++ s :: after).map hostnameCreate ∧
+    (parseAllE errno (before ++ s :: after))[before.length]? = some (hostnameCreate s) :=
+  ⟨parseAllE_eq errno _, parse_position_independent errno before after s⟩
+
+/-- a name whose digit tail is above ULONG_MAX is a plain, un-numbered host (its record denotes exactly that name)
+    and leaves ERANGE behind -/
+theorem long_tail_is_plain_host (n : Str) (hv : dval (n.drop (hostPrefixLen n)) > ULONG_MAX) :
+    (hostnameCreate n).suffix = none ∧ (hostRecord n).hosts = [n] ∧ ∀ e, (hostnameCreateE e n).2 = true :=
+  ⟨(hostnameCreate_longtail n hv).1, (hostRecord_spec n).2, (hostnameCreate_longtail n hv).2.2.2⟩
+
+/-- non-vacuity: the name of seeded change C02-13 -/
+example : (hostnameCreate "job20240929102030123456789".toList).suffix = none ∧
+    (parseAllE false ["job20240929102030123456789".toList, "foo3".toList])[1]? =
+      some ⟨"foo".toList, 3, some "3".toList, false⟩ := by
+  refine ⟨(long_tail_is_plain_host _ (by decide)).1, ?_⟩
+  exact ((name_parse_order_independent false ["job20240929102030123456789".toList] [] "foo3".toList).2).trans (by decide)
+
+end LongTail
 
 end PdshVerif.C02
